@@ -238,6 +238,7 @@ class Sim:
         self.seq = 0
         self.point = 0
         self.gates = []          # pending, in creation order
+        self.all_gates = []
         self.gate_count = 0
         self.gate_occ = {}
         self.decisions = []      # (point, action)
@@ -283,6 +284,8 @@ class Sim:
         self.gate_count += 1
         g = Gate(label, self.loop.create_future(), self.gate_count, kind, outcome, run, node)
         self.gates.append(g)
+        if kind == 'exec':
+            self.all_gates.append(g)
         if len(self.gates) > self.max_pending:
             self.max_pending = len(self.gates)
         self.scheduler.on_gate(self, g)
@@ -292,12 +295,48 @@ class Sim:
         """Awaitable suspension point owned by the scheduler."""
         return self._new_gate(node, kind).fut
 
+    def _submit_baton(self, executor, func, args, node):
+        """real ThreadPoolExecutor + stock wrap_future / call_soon_threadsafe, made deterministic by baton passing:
+        the job thread parks until the scheduler releases it, then the loop thread blocks until the job has finished
+        and its completion callback has been queued - two threads never run at once."""
+        import threading
+        start = threading.Event()
+        done = threading.Event()
+        flag = {'skip': False}
+        run_id = CUR_RUN.get()
+        sim = self
+
+        def job():
+            start.wait()
+            if flag['skip']:
+                return None
+            CUR_RUN.set(run_id)
+            return func(*args)
+
+        cf = executor.submit(job)
+        fut = asyncio.wrap_future(cf, loop=self.loop)
+        cf.add_done_callback(lambda _cf: done.set())    # registered after wrap_future's own callback
+
+        def action():
+            start.set()
+            if not done.wait(60):
+                raise RuntimeError('baton: executor job did not finish')
+            sim.hit('real_thread_job')
+
+        g = self._new_gate(node, 'exec', None)
+        g.fut = fut
+        g.action = action
+        g.abort = lambda: (flag.__setitem__('skip', True), start.set())
+        return fut
+
     def submit_executor_job(self, executor, func, args):
         # simulated pool: the job body runs at submission (the last instant the engine controls),
         # its completion is a gate.
         node = getattr(func, 'func', func)
         node = getattr(getattr(node, '__self__', None), 'SPEC_NAME', None) or '?exec'
         is_process = getattr(executor, 'is_process', False)
+        if not hasattr(executor, 'is_process'):
+            return self._submit_baton(executor, func, args, node)
         try:
             if is_process and self.process_roundtrip:
                 func = pickle.loads(pickle.dumps(func))
@@ -323,6 +362,10 @@ class Sim:
         return gs
 
     def kill_gates(self):
+        for g in self.all_gates:
+            abort = getattr(g, 'abort', None)
+            if abort is not None:
+                abort()
         for g in self.gates:
             if not g.fut.done():
                 g.fut.cancel()
@@ -341,7 +384,11 @@ class Sim:
                         g.fired = True
                         self.seq += 1
                         self.trace.append((self.seq, self.loop._vtime, 'arrive', g.run, g.node, g.kind))
-                        self.loop.call_soon(_release, g)
+                        action = getattr(g, 'action', None)
+                        if action is not None:
+                            action()
+                        else:
+                            self.loop.call_soon(_release, g)
                         self.decisions.append((self.point, ('arrive', lab)))
                         break
             elif a[0] == 'tick':
@@ -448,6 +495,7 @@ class Sim:
         prev = CURRENT
         CURRENT = self
         try:
+            self.kill_gates()
             self.loop.drain_and_close()
         finally:
             CURRENT = prev
